@@ -121,6 +121,14 @@ pub fn val_of(ty: Ty, raw: u16, d: i64) -> Val {
          Val::Tup(vec![Val::I(i / 3), Val::I(i % 3)])
       },
       Ty::DualU32 => Val::dual(Val::I(idx(raw, d))),
+      Ty::DualSetU8 => {
+         let m = idx(raw, 16);
+         Val::dual(Val::set_of((0..4).filter(|b| m & (1 << b) != 0).map(Val::I)))
+      },
+      Ty::PairDualU32 => {
+         let i = idx(raw, 12);
+         Val::Tup(vec![Val::dual(Val::I(i / 3)), Val::I(i % 3)])
+      },
       Ty::SetU8 => {
          let m = idx(raw, 16);
          Val::set_of((0..4).filter(|b| m & (1 << b) != 0).map(Val::I))
